@@ -17,6 +17,10 @@ add("C02", "exploration",
     "Only contract-conforming commits (tag position < committed count) are judged. Trusts the queue model.",
     "runtime monitoring: reference-model oracle over generated tagged histories", "3/C02", "ring-history")
 
+add("C03", "exploration",
+    "A producer thread and a consumer thread run a randomized legal protocol on one 1-2 page ring of u32/u64/[u8;16] (raw buffer and stream pair): random window/commit/consume sizes incl. 0 and full capacity, scribbles beyond the committed count, windows held across the other side's operations, waits with need above what will arrive so time-outs fire, seeded delays at yield hooks. Three monitors: the consumer checks every sample against the unique id sequence (torn/stale/duplicated/skipped); over the recorded event log (emitted under the stream's own lock) no write window may intersect a live read window modulo capacity and produced = consumed + used at every event; the same workload runs in a ThreadSanitizer build (-Zbuild-std) with the recorder off, any report is a violation.",
+    "x86-64 TSO executions only; TSan cannot see conflicts between the two virtual aliases of a byte (covered logically by the window-overlap monitor) and reports data races, not insufficient atomic orderings.",
+    "runtime monitoring: sequence oracle + window-overlap/conservation monitors over hook events + ThreadSanitizer", "3/C03", "spsc-stress")
 add("C04", "fault_enumeration",
     "A finite grid of schedule scripts (about 260 scenarios) over ReadStream::wait/eof, WriteStream::wait, NCReadStream::wait/eof, the derive-generated eof() of a block with a packet input, and a 3-thread MTGraph with a gated source: the peer's 'commit last data; go away' is placed before the call, during the blocked wait, at the yield hook between the timed-out wait and the liveness read, commit-only, between liveness and emptiness read, and after the call, for 16 (buffered, need, final) points. The acting thread is parked at the hook by hand-shake (confirmed by the script). Oracle: a 'never'/eof verdict only with the writer gone and less than requested readable; all committed ids drainable afterwards; end of stream reported within 2 waits after the peer left; MTGraph delivers every sample committed before the source exited.",
     "Cuts are the library's yield hooks (all outside its locks); orders between hooks are reached only by the random delays of C05. Liveness is restated as 'told within 2 wait() calls'.",
@@ -57,6 +61,8 @@ ENGINES = [
          kind_free_text="random/walker/boundary operation histories on one stream vs an executable queue model"),
     dict(name="drip-feed", path="harness/src/drip.rs, duts.rs, blockprops.rs", serves_properties=["C08", "C09", "C10", "C12"],
          kind_free_text="harness plays both neighbours of one block on small streams; per-call observation through hook events"),
+    dict(name="spsc-stress", path="harness/src/spsc.rs", serves_properties=["C03"],
+         kind_free_text="two real threads on one small ring; log monitors in the release build, ThreadSanitizer build with the recorder off"),
     dict(name="eos-scripts", path="harness/src/eos.rs", serves_properties=["C04"],
          kind_free_text="deterministic hand-shakes at yield hooks between a reader/writer thread and its peer"),
     dict(name="graph-programs", path="harness/src/graphs.rs, runners.rs", serves_properties=["C05", "C06", "C07"],
